@@ -221,7 +221,7 @@ func c10ReuseTypes() []reuseType {
 }
 
 func runC10(r *engine.Run) {
-	r.Rule = "E1 + E2 (+ E3 for schedules, reported by the C10 schedule explorer into the same evidence). (a) aliasing: frames of every kind decoded from a sub-slice with spare capacity inside a guarded arena; the arena is overwritten afterwards and the frame's deep print must not change, also after Decode*ToMACCommands / Decrypt*; encoded output overwritten must not change the frame or a second encoding. (b) out-of-slice writes: EncryptFRMPayload / EncryptFOpts for every length 0..64 x spare capacity {0,1,15,16,40} x 2 placements, guard bytes before and after the slice must be intact; Validate*/Marshal* leave the frame's deep print unchanged. (c) reuse histories: for every decodable type (29 MAC payloads, ChMask, CFList and both payload kinds, join/rejoin payloads, MACCommand, FHDR, MACPayload, PHYPayload, 35 application-layer payloads, the four Commands lists x direction) every sequence of <= 3 decodes over a 5-6 string alphabet, plain and with the caller setting every exported scalar field of the value between the decodes; whenever the last decode succeeds the value must equal a fresh value decoded from the last string alone. (d) band instances: for every band name x repeater x dwell, explicit-state BFS over the mutators of instance A (C15 alphabet, depth 3) with the hook snapshot of an untouched instance B compared with a fresh instance in every state."
+	r.Rule = "E1 + E2 (+ E3 for schedules, reported by the C10 schedule explorer into the same evidence). (a) aliasing: frames of every kind decoded from a sub-slice with spare capacity inside a guarded arena; the arena is overwritten afterwards and the frame's deep print must not change, also after Decode*ToMACCommands / Decrypt*; encoded output overwritten must not change the frame or a second encoding. (b0) payload lists with spare capacity: FOpts = queue[:n] (n 0..2, spare 0..3) and FRMPayload = items[:m] (m 0..2, spare 0..2) x direction x seven encode / MIC / encrypt operations; the elements behind the part handed over must stay the caller's. (b) out-of-slice writes: EncryptFRMPayload / EncryptFOpts for every length 0..64 x spare capacity {0,1,15,16,40} x 2 placements, guard bytes before and after the slice must be intact; Validate*/Marshal* leave the frame's deep print unchanged. (c) reuse histories: for every decodable type (29 MAC payloads, ChMask, CFList and both payload kinds, join/rejoin payloads, MACCommand, FHDR, MACPayload, PHYPayload, 35 application-layer payloads, the four Commands lists x direction) every sequence of <= 3 decodes over a 5-6 string alphabet, plain and with the caller setting every exported scalar field of the value between the decodes; whenever the last decode succeeds the value must equal a fresh value decoded from the last string alone. (d) band instances: for every band name x repeater x dwell, explicit-state BFS over the mutators of instance A (C15 alphabet, depth 3) with the hook snapshot of an untouched instance B compared with a fresh instance in every state."
 	frameHistory(r, 2)
 	cryptoHistory(r)
 	macCommandReuse(r)
@@ -297,6 +297,89 @@ func runC10(r *engine.Run) {
 			}
 		}
 		c.Outcome("aliasing/" + step)
+	})
+
+	// ---- (b0) payload lists with spare capacity: FOpts / FRMPayload given as the front part of a longer
+	// list the caller keeps (a queue of pending commands, cut with queue[:n]): encoding, MIC and
+	// encryption calls read the frame; the elements of the queue behind the part handed over stay the
+	// caller's
+	spQ := (&engine.Space{}).Dim("fopts taken from the queue:0..2", 3).Dim("fopts spare:0..3", 4).Dim("frmpayload items:0..2", 3).Dim("frmpayload spare:0..2", 3).Dim("direction", 2).Dim("operation{MarshalBinary, MarshalText, MACPayload.MarshalBinary, SetMIC, ValidateMIC, EncryptFRMPayload, EncryptFOpts}", 7)
+	r.PartDims("payload-list-spare-capacity", spQ.Desc(), spQ.N(), func(c *engine.Case) {
+		var ch [6]int
+		spQ.Decode(c.Index, ch[:])
+		uplink := ch[4] == 1
+		mkCmd := func(i int) lorawan.Payload {
+			if uplink {
+				return &lorawan.MACCommand{CID: lorawan.LinkADRAns, Payload: &lorawan.LinkADRAnsPayload{ChannelMaskACK: i%2 == 0, DataRateACK: true}}
+			}
+			return &lorawan.MACCommand{CID: lorawan.DutyCycleReq, Payload: &lorawan.DutyCycleReqPayload{MaxDCycle: uint8(i)}}
+		}
+		queue := make([]lorawan.Payload, ch[0]+ch[1])
+		for i := range queue {
+			queue[i] = mkCmd(i)
+		}
+		items := make([]lorawan.Payload, ch[2]+ch[3])
+		for i := range items {
+			items[i] = &lorawan.DataPayload{Bytes: []byte{byte(0x70 + i), 2, 3}}
+		}
+		keepQ := append([]lorawan.Payload(nil), queue...)
+		keepI := append([]lorawan.Payload(nil), items...)
+		mp := &lorawan.MACPayload{FHDR: lorawan.FHDR{DevAddr: lorawan.DevAddr{1, 2, 3, 4}, FCnt: 5, FOpts: queue[:ch[0]]}}
+		if ch[2] > 0 {
+			port := uint8(10)
+			mp.FPort, mp.FRMPayload = &port, items[:ch[2]]
+		}
+		mt := lorawan.UnconfirmedDataDown
+		if uplink {
+			mt = lorawan.UnconfirmedDataUp
+		}
+		p := &lorawan.PHYPayload{MHDR: lorawan.MHDR{MType: mt, Major: lorawan.LoRaWANR1}, MACPayload: mp}
+		k := keyOf(c02Keys[1])
+		c.Eval()
+		var opErr error
+		name := []string{"MarshalBinary", "MarshalText", "MACPayload.MarshalBinary", "SetMIC", "ValidateMIC", "EncryptFRMPayload", "EncryptFOpts"}[ch[5]]
+		if pn, site, v := engine.Try(func() {
+			switch ch[5] {
+			case 0:
+				_, opErr = p.MarshalBinary()
+			case 1:
+				_, opErr = p.MarshalText()
+			case 2:
+				_, opErr = mp.MarshalBinary()
+			case 3:
+				if uplink {
+					opErr = p.SetUplinkDataMIC(lorawan.LoRaWAN1_1, 0, 1, 2, k, k)
+				} else {
+					opErr = p.SetDownlinkDataMIC(lorawan.LoRaWAN1_1, 0, k)
+				}
+			case 4:
+				if uplink {
+					_, opErr = p.ValidateUplinkDataMIC(lorawan.LoRaWAN1_0, 0, 0, 0, k, k)
+				} else {
+					_, opErr = p.ValidateDownlinkDataMIC(lorawan.LoRaWAN1_0, 0, k)
+				}
+			case 5:
+				opErr = p.EncryptFRMPayload(k)
+			case 6:
+				opErr = p.EncryptFOpts(k)
+			}
+		}); pn {
+			c.Fail("panic/"+site, fmt.Sprintf("%s panics: %v", name, v), nil)
+			return
+		}
+		c.NonTrivial()
+		for i := ch[0]; i < len(queue); i++ {
+			if queue[i] != keepQ[i] {
+				c.Fail("payload-list/"+name+"/write-behind-fopts", fmt.Sprintf("%s (err %v) on a frame whose FOpts are queue[:%d] of a %d-element queue (FRMPayload of %d items): queue[%d] has been replaced by a %T", name, opErr, ch[0], len(queue), ch[2], i, queue[i]), nil)
+				return
+			}
+		}
+		for i := ch[2]; i < len(items); i++ {
+			if items[i] != keepI[i] {
+				c.Fail("payload-list/"+name+"/write-behind-frmpayload", fmt.Sprintf("%s (err %v) on a frame whose FRMPayload is items[:%d] of %d: items[%d] has been replaced by a %T", name, opErr, ch[2], len(items), i, items[i]), nil)
+				return
+			}
+		}
 	})
 
 	// ---- (b) out-of-slice writes
